@@ -711,6 +711,62 @@ def case_horospheres(case):
     return {"v": v[:6], "t": t, "o": "%s/%s/" % (model, tf) + "".join(sorted(summ)), "nt": "C" in summ or "inf" in summ}
 
 
+def case_horospheres_composite(case):
+    """Several horospheres drawn by ONE call as a composite object: every finite circle of the collection is
+    the circle of its own member (centre and radius pair up member by member), members centred at the
+    half-plane's point at infinity become rectangles."""
+    from geometry_tools import hyperbolic
+    model, tf, members = case["model"], case["tf"], case["members"]
+    v, t = [], 0
+    try:
+        d = new_drawing(model, tf)
+        thr = threshold()
+        usable = [(xi, ref) for (xi, ref) in members if horo_in_domain(model, tf, xi, [ref])]
+        if len(usable) < 2:
+            return {"v": [], "t": 0, "o": "skipped", "nt": False}
+        obj = hyperbolic.Horosphere(hyperbolic.Point(np.array([xi for xi, _ in usable], dtype=float), model="klein"),
+                                    hyperbolic.Point(np.array([ref for _, ref in usable], dtype=float), model="klein"))
+        before = all_artists()
+        d.draw_horosphere(obj)
+        t += 1
+        new = new_artists(before)
+        want_circles, n_inf, n_sub = [], 0, 0
+        for xi, ref in usable:
+            kxi, kp = transformed(tf, np.array(xi, float)), transformed(tf, np.array(ref, float))
+            kxi = kxi / np.linalg.norm(kxi)
+            c, r = dg.horocycle(model, kxi, kp)
+            if c is None:
+                n_inf += 1
+            elif not r < thr * (1.0 - BAND):
+                n_sub += 1
+            else:
+                want_circles.append((c, r, kxi))
+        if n_sub:
+            return {"v": [], "t": t, "o": "substituted", "nt": False}       # radius near/above the threshold: nothing demanded
+        colls = [(a, ax) for a, ax in new if type(a).__name__ == "EllipseCollection"]
+        rects = [(a, ax) for a, ax in new if type(a).__name__ == "Rectangle"]
+        site = "horosphere-composite/" + model
+        if any(ax is not d.ax for _, ax in new):
+            v.append(V("artist/%s/not-on-drawing-axes" % site, "a new artist appeared on other axes"))
+        if len(colls) != (1 if want_circles else 0) or len(rects) != n_inf or len(new) != len(colls) + len(rects):
+            v.append(V(site + "/artists", "call added %s; expected %d EllipseCollection and %d Rectangle" % (
+                ",".join(type(a).__name__ for a, _ in new), 1 if want_circles else 0, n_inf)))
+        elif want_circles:
+            off, w, h, units = ellipse_params(colls[0][0], colls[0][1])
+            if not (len(off) == len(w) == len(h) == len(want_circles)):
+                v.append(V(site + "/count", "%d offsets, %d widths, %d heights for %d finite members" % (len(off), len(w), len(h), len(want_circles))))
+            else:
+                for i, (c, r, kxi) in enumerate(want_circles):
+                    tolp = tol_arc(r) + tol_ideal(kxi)
+                    if np.linalg.norm(off[i] - c) > tolp or abs(w[i] - 2 * r) > 2 * tolp or abs(h[i] - 2 * r) > 2 * tolp:
+                        v.append(V(site + "/member-circle", "member %d of %d: drawn centre %s diameter %.9g x %.9g, oracle centre %s diameter %.9g (members: %s)" % (
+                            i, len(want_circles), fmt(off[i]), w[i], h[i], fmt(c), 2 * r, fmt([list(m[0]) for m in usable]))))
+                        break
+    finally:
+        close_all()
+    return {"v": v[:4], "t": t, "o": "%s/%s/%d/%d" % (model, tf, len(usable), n_inf), "nt": True}
+
+
 def horo_in_domain(model, tf, xi, pts):
     if model != "halfspace":
         return True
@@ -1086,6 +1142,16 @@ def run(ctx):
     hc = [{"model": m, "tf": t, "xi": xi, "refs": refs} for m in CONFORMAL for t in TFS for xi in dirs]
     product("horospheres", "checks.c19:case_horospheres", hc,
                 domains={"centres": dirs, "reference points": len(refs), "models": CONFORMAL}, chunk=2)
+    cc = []
+    for m in CONFORMAL:
+        for t in TFS:
+            for i in range(len(dirs)):
+                # three members; the member listed first cycles through all centres (incl. the point at infinity)
+                mem = [[dirs[(i + j * 3) % len(dirs)], refs[(2 * i + j) % len(refs)]] for j in range(3)]
+                cc.append({"model": m, "tf": t, "members": mem})
+                cc.append({"model": m, "tf": t, "members": mem[::-1]})
+    product("horospheres-composite", "checks.c19:case_horospheres_composite", cc,
+                domains={"members per call": 3, "first member": "every centre of the alphabet (incl. the half-plane point at infinity), both listing orders"}, chunk=2)
     turns = [0.5, -0.5, 2.0, -2.0, 3.0]
     ac = [{"model": m, "tf": t, "xi": xi, "ref": p, "turns": turns}
           for m in CONFORMAL for t in TFS for xi in dirs for p in (pts[:6] if q else pts[:12])]
